@@ -445,3 +445,71 @@ def search_incomplete_entry_points(ck, sr) -> None:
         sr.distinct = len(bad)
     finally:
         shutil.rmtree(tmp, ignore_errors=True)
+
+def search_decoded_collides(ck, sr) -> None:
+    """Pattern LISTS under RAWCHARS in which an earlier pattern decodes, character for character, to the RAW spelling of a later one
+    (`[r'\\x5cx41', r'\\x41']`): every member is decoded on its own and the list means the list of the decoded members (added after seeded
+    change C20j: the list loops skipped an input pattern whose raw text was already among the decoded texts seen)."""
+    from framework import Failing
+    from wcmatch import fnmatch as F, glob as G
+    sr.note = search_decoded_collides.__doc__.replace('\n    ', ' ')
+    laters = ['\\x41', '\\101', '\\u0041', '\\x2a', '\\x', '\\u12', '\\N{DIGIT ONE}', '\\x5b\\x61\\x5d']
+    bs = ['\\x5c', '\\134', '\\u005c']
+    names = ['A', 'x41', '\\x41', '101', '*', 'b', 'ab', '1', 'a', '\\101', 'u0041', '\\u0041']
+    for later in laters:
+        for b in bs:
+            earlier = b + later[1:]          # decodes to `later` as text: a literal backslash followed by the rest
+            for order in ((earlier, later), (later, earlier), (earlier, 'zz', later)):
+                for mod, call in ((F, 'fnmatch'), (G, 'globmatch'), (F, 'filter'), (F, 'translate')):
+                    sr.evaluations += 1
+
+                    def run(pats, fl):
+                        try:
+                            if call == 'fnmatch':
+                                return [bool(F.fnmatch(n, pats, flags=fl)) for n in names]
+                            if call == 'globmatch':
+                                return [bool(G.globmatch(n, pats, flags=fl)) for n in names]
+                            if call == 'filter':
+                                return F.filter(names, pats, flags=fl)
+                            return F.translate(pats, flags=fl)
+                        except SyntaxError:
+                            return 'SyntaxError'
+                        except LookupError:
+                            return 'LookupError'
+                    got = run(list(order), mod.RAWCHARS | mod.FORCEUNIX)
+                    # the same list, every member decoded on its own through the SINGLE-pattern path, then passed without RAWCHARS
+                    singles = []
+                    err = None
+                    for q in order:
+                        try:
+                            t_ = F.translate(q, flags=F.RAWCHARS | F.FORCEUNIX)
+                        except SyntaxError:
+                            err = 'SyntaxError'
+                            break
+                        except LookupError:
+                            err = 'LookupError'
+                            break
+                        singles.append(t_[0])
+                    if call == 'translate':
+                        want = err or ([x for s_ in singles for x in s_], [])
+                        if not err:
+                            seen_, flat = set(), []
+                            for x in want[0]:
+                                if x not in seen_:
+                                    seen_.add(x)
+                                    flat.append(x)
+                            want = (flat, [])
+                    else:
+                        import re as _re
+                        if err:
+                            want = err
+                        else:
+                            acc = [any(_re.fullmatch(r_, n) for s_ in singles for r_ in s_) for n in names]
+                            want = acc if call != 'filter' else [n for n, a in zip(names, acc) if a]
+                    if got != want:
+                        ck.report(Failing(f'{mod.__name__.split(".")[-1]}.{call}: the RAWCHARS list {list(order)} does not mean the list of its decoded members',
+                                          {'api': f'{mod.__name__}.{call}', 'patterns': list(order), 'flags': 'RAWCHARS', 'names': names}, str(want)[:300], str(got)[:300]), None)
+                        sr.histogram['FAIL'] = sr.histogram.get('FAIL', 0) + 1
+                    else:
+                        sr.histogram['holds'] = sr.histogram.get('holds', 0) + 1
+    sr.distinct = len(laters) * len(bs)
